@@ -59,7 +59,7 @@ func ExpandMsgXmd(msg, dst []byte, lenInBytes int) ([]byte, error) {
 	b1 := h.Sum(nil)
 
 	res := make([]byte, lenInBytes)
-	copy(res[:h.Size()], b1)
+	copy(res, b1) // lenInBytes may be shorter than one digest
 
 	for i := 2; i <= ell; i++ {
 		// b_i = H(strxor(b₀, b_(i - 1)) ∥ I2OSP(i, 1) ∥ DST_prime)
